@@ -391,4 +391,192 @@ theorem cs_pushFromCache (o : Obj) (hs : o.st = .receiving) :
   · intro hm; simp at hm
   · exact cs_replayCache o.cache o hs
 
+
+/-! ### `push` -/
+
+theorem tu_pushTail (o : Obj) (p : Pkt) : Tu o (pushTail o p).1 (pushTail o p).2 := by
+  unfold pushTail
+  by_cases hs : o.st ≠ .receiving
+  · rw [if_pos hs]; exact Tu.refl o
+  · rw [if_neg hs]
+    by_cases ho : o.oti.isNone = true
+    · rw [if_pos ho]
+      by_cases hc : o.cacheSize ≥ o.maxCache
+      · rw [if_pos hc]; exact (tr_error o false).tu
+      · rw [if_neg hc]; exact ⟨rfl, rfl, id, fun _ h => ⟨h, rfl⟩⟩
+    · rw [if_neg ho]
+      have hp := tu_pushToBlock o p
+      cases hpb : pushToBlock o p with
+      | error o' =>
+        simp only []
+        obtain ⟨a1, a2, a3⟩ := hp.2 o' hpb
+        exact Tu.of_ids (o := o) a1 a2 a3 (tr_error o' false).tu
+      | ok r => exact hp.1 r hpb
+
+theorem cs_pushTail (o : Obj) (p : Pkt) (hs : o.st = .receiving) :
+    WEv.complete ∈ (pushTail o p).2 → (pushTail o p).1.st = .completed := by
+  unfold pushTail
+  rw [if_neg (by rw [hs]; simp)]
+  by_cases ho : o.oti.isNone = true
+  · rw [if_pos ho]
+    by_cases hc : o.cacheSize ≥ o.maxCache
+    · rw [if_pos hc]; intro hm; exact absurd hm (error_not_receiving o false).2
+    · rw [if_neg hc]; intro hm; simp at hm
+  · rw [if_neg ho]
+    cases hpb : pushToBlock o p with
+    | error o' =>
+      simp only []
+      intro hm; exact absurd hm (error_not_receiving o' false).2
+    | ok r => exact (cs_pushToBlock o p hs r hpb).1
+
+theorem setOti_ids (o : Obj) (p : Pkt) :
+    (setOti o p).toi = o.toi ∧ (setOti o p).fdtId = o.fdtId ∧ (setOti o p).wsess = o.wsess ∧
+    (setOti o p).st = o.st := by
+  unfold setOti
+  split <;> exact ⟨rfl, rfl, rfl, rfl⟩
+
+theorem setFdtId_ids (o : Obj) (p : Pkt) :
+    (setFdtId o p).toi = o.toi ∧ (setFdtId o p).wsess = o.wsess ∧ (setFdtId o p).st = o.st ∧
+    (p.toi ≠ 0 → (setFdtId o p).fdtId = o.fdtId) := by
+  unfold setFdtId
+  split
+  · rename_i h; exact ⟨rfl, rfl, rfl, fun hp => absurd h.2 hp⟩
+  · exact ⟨rfl, rfl, rfl, fun _ => rfl⟩
+
+/-- **`CompleteSound` for `Mini`**: when `push` makes the writer's `complete` call the object is
+    `Completed` when `push` returns -/
+theorem completeSound : iface.CompleteSound := by
+  intro o p hm
+  show (push o p).1.st = .completed
+  have hm' : WEv.complete ∈ (push o p).2 := hm
+  unfold push at hm' ⊢
+  by_cases hs : o.st ≠ .receiving
+  · rw [if_pos hs] at hm'; simp at hm'
+  · rw [if_neg hs] at hm' ⊢
+    have hs' : o.st = .receiving := by
+      cases h : o.st <;> simp_all
+    simp only [] at hm' ⊢
+    -- the object handed to init_object_writer is still Receiving
+    have h3 : (initBlocksPartitioning (setOti (setFdtId o p) p)).st = .receiving := by
+      rw [(same_initBlocks _).2.2.2.1, (setOti_ids _ p).2.2.2, (setFdtId_ids o p).2.2.1]; exact hs'
+    have ha := tr_initObjectWriter (initBlocksPartitioning (setOti (setFdtId o p) p))
+    have h4 : (initObjectWriter (initBlocksPartitioning (setOti (setFdtId o p) p))).1.st = .receiving := by
+      rw [ha.2.1]; exact h3
+    have hb := cs_pushFromCache _ h4
+    rcases List.mem_append.mp hm' with hm1 | hm1
+    · rcases List.mem_append.mp hm1 with hm2 | hm2
+      · exact absurd hm2 ha.2.2.1
+      · -- completed while the cache was replayed: `push` returns right away
+        have hc := hb hm2
+        unfold pushTail
+        rw [if_pos (by rw [hc]; simp)]
+        exact hc
+    · -- completed by the packet itself: the object was still Receiving after the cache replay
+      by_cases h5 : (pushFromCache (initObjectWriter (initBlocksPartitioning (setOti (setFdtId o p) p))).1).1.st = .receiving
+      · exact cs_pushTail _ p h5 hm1
+      · exfalso
+        unfold pushTail at hm1
+        rw [if_pos h5] at hm1
+        simp at hm1
+
+
+theorem tu_push (o : Obj) (p : Pkt) (hp : p.toi ≠ 0) : Tu o (push o p).1 (push o p).2 := by
+  unfold push
+  by_cases hs : o.st ≠ .receiving
+  · rw [if_pos hs]; exact Tu.refl o
+  · rw [if_neg hs]
+    simp only []
+    have h1 := setFdtId_ids o p
+    have h2 := setOti_ids (setFdtId o p) p
+    have h3 := same_initBlocks (setOti (setFdtId o p) p)
+    have ta := (tr_initObjectWriter (initBlocksPartitioning (setOti (setFdtId o p) p))).1.tu
+    have ta' : Tu o (initObjectWriter (initBlocksPartitioning (setOti (setFdtId o p) p))).1
+        (initObjectWriter (initBlocksPartitioning (setOti (setFdtId o p) p))).2 :=
+      Tu.of_ids (by rw [h3.1, h2.1, h1.1]) (by rw [h3.2.1, h2.2.1, h1.2.2.2 hp]) (by rw [h3.2.2.1, h2.2.2.1, h1.2.1]) ta
+    exact Tu.trans (Tu.trans ta' (tu_pushFromCache _)) (tu_pushTail _ p)
+
+theorem push_toi' (o : Obj) (p : Pkt) : (push o p).1.toi = o.toi := by
+  unfold push
+  by_cases hs : o.st ≠ .receiving
+  · rw [if_pos hs]
+  · rw [if_neg hs]
+    simp only []
+    rw [(tu_pushTail _ p).toi, (tu_pushFromCache _).toi,
+      (tr_initObjectWriter _).1.toi, (same_initBlocks _).1, (setOti_ids _ p).1, (setFdtId_ids o p).1]
+
+/-- ghost "attached" of the `Mini` object -/
+def attached (o : Obj) : Bool := o.fdtId.isSome || decide (o.wsess ≠ .none)
+
+theorem attached_false (o : Obj) : attached o = false ↔ o.fdtId = none ∧ o.wsess = .none := by
+  unfold attached
+  cases o.fdtId <;> cases o.wsess <;> simp
+
+theorem attachFdt_toi (o : Obj) (id : Nat) (fdt : FdtAbs) : (attachFdt o id fdt).1.toi = o.toi := by
+  unfold attachFdt
+  by_cases h : o.fdtId.isSome = true
+  · rw [if_pos h]
+  · rw [if_neg h]
+    cases fdt.getFile o.toi with
+    | none => rfl
+    | some file =>
+      simp only []
+      rw [(tu_pushFromCache _).toi, (tr_writeBlocks _ _ _).toi, (tu_pushFromCache _).toi,
+        (tr_initObjectWriter _).1.toi, (same_initBlocks _).1]
+      simp only []
+      split <;> (split <;> (try split) <;> rfl)
+
+/-- **`ObjIface.Law` for `Mini`**: writer calls only after a successful attach; attach only to an
+    instance that lists the object's TOI -/
+def law : iface.Law :=
+  { attached := attached
+    toi := fun o => o.toi
+    new_attached := fun _ _ => rfl
+    new_toi := fun _ _ => rfl
+    push_toi := fun o p => push_toi' o p
+    push_attached := fun o p hp => by
+      show attached (push o p).1 = attached o
+      have t := tu_push o p hp
+      cases ha : attached o with
+      | false =>
+        obtain ⟨h1, h2⟩ := (attached_false o).mp ha
+        exact (attached_false _).mpr ⟨by rw [t.fdt]; exact h1, (t.un h1 h2).1⟩
+      | true =>
+        unfold attached at ha ⊢
+        rw [t.fdt]
+        cases hf : o.fdtId with
+        | some i => simp
+        | none =>
+          rw [hf] at ha
+          simp only [Option.isSome_none, Bool.false_or, decide_eq_true_eq] at ha ⊢
+          exact t.ws ha
+    push_silent := fun o p hp ha => by
+      obtain ⟨h1, h2⟩ := (attached_false o).mp ha
+      exact ((tu_push o p hp).un h1 h2).2
+    attach_toi := fun o id fdt => attachFdt_toi o id fdt
+    attach_fail := fun o id fdt hf ha => by
+      show attached (attachFdt o id fdt).1 = false ∧ (attachFdt o id fdt).2.2 = []
+      have hf' : (attachFdt o id fdt).2.1 = false := hf
+      unfold attachFdt at hf' ⊢
+      by_cases h : o.fdtId.isSome = true
+      · rw [if_pos h]; exact ⟨ha, rfl⟩
+      · rw [if_neg h] at hf' ⊢
+        cases hg : fdt.getFile o.toi with
+        | none => exact ⟨ha, rfl⟩
+        | some file => rw [hg] at hf'; simp at hf'
+    attach_lists := fun o id fdt hs => by
+      show (fdt.getFile o.toi).isSome = true
+      have hs' : (attachFdt o id fdt).2.1 = true := hs
+      unfold attachFdt at hs'
+      by_cases h : o.fdtId.isSome = true
+      · rw [if_pos h] at hs'; simp at hs'
+      · rw [if_neg h] at hs'
+        cases hg : fdt.getFile o.toi with
+        | none => rw [hg] at hs'; simp at hs'
+        | some file => rfl
+    drop_silent := fun o ha => by
+      show drop o = []
+      obtain ⟨_, h2⟩ := (attached_false o).mp ha
+      unfold drop
+      rw [h2]; simp }
+
 end Flute.Recv.Mini
